@@ -30,6 +30,9 @@ import (
 var c19DeepPositions = []string{
 	"request-params", "response-result", "error-data", "notification-in-batch", "whole-document",
 	"unterminated-document", "tool-arguments-any", "ndjson-connection", "sse-event-data", "streamable-post-body",
+	// strings on the way: one that ends in an escaped backslash, one with escaped quotes, before the
+	// nested value; and a flat string that merely contains that many brackets (always to be preserved)
+	"params-after-string-ending-in-backslash", "params-after-string-with-escaped-quotes", "brackets-inside-a-string",
 }
 var c19DeepDepths = []int{1, 100, 5000, 10001, 100000, 4000000}
 
@@ -62,6 +65,13 @@ func c19DeepRun(pos, open string, depth int) string {
 	switch pos {
 	case "request-params":
 		return preserved(jsonrpc.DecodeMessage([]byte(`{"jsonrpc":"2.0","id":1,"method":"m","params":` + x + `}`)))
+	case "params-after-string-ending-in-backslash":
+		return preserved(jsonrpc.DecodeMessage([]byte(`{"jsonrpc":"2.0","id":"C:\\tools\\","method":"C:\\tools\\","params":` + x + `}`)))
+	case "params-after-string-with-escaped-quotes":
+		return preserved(jsonrpc.DecodeMessage([]byte(`{"jsonrpc":"2.0","id":"say \"hi\"","method":"a\\\"b\"","params":` + x + `}`)))
+	case "brackets-inside-a-string":
+		x = `"` + strings.Repeat(open[:1], depth) + `\"` + strings.Repeat("]}", depth/2) + `"`
+		return preserved(jsonrpc.DecodeMessage([]byte(`{"jsonrpc":"2.0","id":1,"method":"m","params":{"s":` + x + `}}`)))
 	case "response-result":
 		return preserved(jsonrpc.DecodeMessage([]byte(`{"jsonrpc":"2.0","id":1,"result":` + x + `}`)))
 	case "error-data":
@@ -171,7 +181,7 @@ func c19Deep(cases *verifx.Cases) {
 					cases.Violate(idx, "c19 deep-nesting process-died "+pos, fmt.Sprintf("the process that decoded the document ended (%v) after %v without a result: %s [%s]", err, time.Since(t0).Round(time.Millisecond), first, desc), 1)
 				case strings.HasPrefix(result, "changed"):
 					cases.Violate(idx, "c19 deep-nesting value-changed "+pos, result+" ["+desc+"]", 1)
-				case strings.HasPrefix(result, "refused") && depth <= c19DeepMustDecode && pos != "whole-document" && pos != "unterminated-document":
+				case strings.HasPrefix(result, "refused") && (depth <= c19DeepMustDecode || pos == "brackets-inside-a-string") && pos != "whole-document" && pos != "unterminated-document":
 					cases.Violate(idx, "c19 deep-nesting valid-document-refused "+pos, result+" ["+desc+"]", 1)
 				default:
 					cls := result
